@@ -6,10 +6,13 @@ Claimed narrowly. Decides: (a) the query handler rejects OFFSET without LIMIT be
 (segment_query_runner, memtable_source), the ordered k-way merge (ordered_merger) and the aggregate merger are the same function of their arguments
 (same callees, arguments in parameter order) — a k-way merge of runs sorted under a different order is wrong; the heap item of the ordered merger compares the order column of both rows;
 (c) response-writer limit/offset are None exactly when the query is ordered or a sequence query (the slice is applied once).
+(d) per-flow row bounds use LIMIT+OFFSET: the raw LIMIT (QueryPlan::limit) bounds rows only in the reviewed places (StreamingContext::new and plan_with_rlte add the offset;
+MemTableSource::determine_limit, build_segment_stream and MemTableQuery use it only as the fallback behind the limit override that carries LIMIT+OFFSET; QueryExecution::run and build_segment_flow are the
+legacy non-streaming path) — a new use of the raw LIMIT as a truncation / take / comparison bound in a source or merger drops the rows behind the offset.
 Does NOT decide: correctness of top-k zone pre-selection (RLTE), slice positions, typed order of ScalarValue::compare (value level).
 """
-FLOOR = 3
-REQUIRED = ["C10.a", "C10.b", "C10.c"]
+FLOOR = 4
+REQUIRED = ["C10.a", "C10.b", "C10.c", "C10.d"]
 
 COPIES = ["engine::core::read::segment_query_runner::compare_scalar_values",
           "engine::core::read::flow::operators::memtable_source::compare_scalar_values",
@@ -115,3 +118,50 @@ def run(ctx):
             bad.append(("slice-never:unordered", "unordered queries do not get the command's limit/offset in the response writer", None))
         return bad
     ctx.run("C10.c", "K8 GUARD", "QueryCommandHandler::handle", "LIMIT/OFFSET are applied exactly once", c)
+
+
+    RAW_LIMIT_OK = {
+        "engine::query::streaming::context::StreamingContext::new": "adds the offset (effective_limit)",
+        "engine::query::rlte_planner::plan_with_rlte": "adds the offset (k_user)",
+        "engine::core::read::flow::operators::memtable_source::MemTableSource::determine_limit": "fallback behind limit_override (LIMIT+OFFSET); None when the limit is deferred",
+        "engine::core::read::flow::shard_pipeline::build_segment_stream": "zero-limit shortcut and fallback behind limit_override",
+        "engine::core::read::memtable_query::MemTableQuery::query": "fallback behind limit_override",
+        "engine::core::read::query_execution::QueryExecution::run": "legacy non-streaming path",
+        "engine::core::read::flow::shard_pipeline::build_segment_flow": "legacy non-streaming path",
+    }
+
+    def d(inst):
+        from ..callgraph import CallGraph
+        cg = CallGraph(F)
+        tgt = "engine::core::read::query_plan::QueryPlan::limit"
+        if tgt not in cg.nodes:
+            raise AnchorMissing(tgt)
+        callers = sorted(cg.callers(tgt))
+        bases = sorted({norm_path(k.split("::{closure")[0]) for k in callers})
+        inst.sites = ["callers of QueryPlan::limit: %s" % [b_.split("::")[-2] + "::" + b_.split("::")[-1] for b_ in bases]]
+        if len(bases) < 5:
+            raise AnchorMissing("callers of QueryPlan::limit: %d" % len(bases))
+        bad = []
+        BOUND = re.compile(r"(Vec|VecDeque)::(truncate|split_off|resize|drain)$|Iterator::(take|take_while|nth)$|slice::(select_nth\w*|split_at\w*)$|::with_limit$|usize::min$|Ord>::min$")
+        for k in callers:
+            base = norm_path(k.split("::{closure")[0])
+            if base in RAW_LIMIT_OK:
+                continue
+            body = F.fn_exact(k)
+            for c in body.find_calls(r"QueryPlan::limit$"):
+                flow = {l for l, _ in body.flow_forward(c.dest, follow_calls=re.compile(TRANSPARENT.pattern[:-2] + r"|.*Option::<T>::(map|unwrap_or|unwrap_or_default|unwrap_or_else|or|or_else|min|filter))$"))}
+                used = None
+                for u in body.calls:
+                    if u.cleanup or u is c:
+                        continue
+                    if BOUND.search(u.nname) and any(body._origin_locals(a_) & flow for a_ in u.args[1:] or u.args):
+                        used = u.nname
+                for blk in body.live_blocks():
+                    for s_ in body.blocks[blk]["s"]:
+                        v = s_.get("v")
+                        if v and v["r"] == "bin" and v["op"] in ("Lt", "Le", "Gt", "Ge") and ((body._origin_locals(v["a"]) | body._origin_locals(v["b"])) & flow):
+                            used = used or ("comparison " + v["op"])
+                if used:
+                    bad.append(("raw-limit-bound:%s" % base, "%s bounds rows with the raw LIMIT (%s) instead of LIMIT+OFFSET: rows needed behind the offset are dropped at this stage" % (k, used), None))
+        return bad
+    ctx.run("C10.d", "K4 REACH + K7", "uses of the raw LIMIT", "rows behind the OFFSET are not cut off before the final slice", d)
